@@ -1,4 +1,5 @@
 import VModel.Bincode
+import VProofs.Lemmas.BinRead
 /-!
 # C07 — Model files round-trip; partial or foreign files are rejected
 
@@ -6,47 +7,99 @@ Property theorems only (helper lemmas live in `VProofs/Lemmas/Bin*.lean`).
 `V.Bin` is a byte-exact model of the wire format; the correspondence run compares its bytes with the real ones.
 -/
 namespace V
-open V.Bin
+open V.Bin V.BinL
 
 /-- serialising and reading back from a slice gives the same model and exactly the bytes that followed it -/
 theorem C07_roundtrip (m : WModel) (h : Encodable m) (rest : Bytes) :
     readSlice (toVec m ++ rest) = .ok (m, rest) := by
-  sorry
+  exact readSlice_toVec h rest
 
 /-- … and from a reader (which may hold further data after the model) -/
 theorem C07_read_roundtrip (m : WModel) (h : Encodable m) (rest : Bytes) :
     read (toVec m ++ rest) = .ok m := by
-  sorry
+  exact read_toVec h rest
 
 /-- the decoded model is equal, so it serialises to the identical bytes (and predicts identically) -/
 theorem C07_bytes_stable (m m' : WModel) (h : Encodable m) (rest rest' : Bytes)
     (hr : readSlice (toVec m ++ rest) = .ok (m', rest')) : toVec m' = toVec m ∧ rest' = rest := by
-  sorry
+  rw [readSlice_toVec h rest] at hr
+  injection hr with hr
+  injection hr with h1 h2
+  exact ⟨by rw [h1], h2.symm⟩
 
 /-- every proper prefix of a model file is rejected with an error by both readers (never a panic, never a model);
 a reader that fails after `k` bytes is the case `p = (toVec m).take k` -/
 theorem C07_prefix_rejected (m : WModel) (h : Encodable m) (p : Bytes) (hp : p <+: toVec m) (hne : p ≠ toVec m) :
     (∃ e, readSlice p = .err e) ∧ (∃ e, read p = .err e) := by
-  sorry
+  exact prefix_rejected h hp hne
 
 /-- every input with a different header is rejected, whatever follows -/
 theorem C07_foreign_header (hdr x : Bytes) (hlen : hdr.length = magic.length) (hne : hdr ≠ magic) :
     readSlice (hdr ++ x) = .err .invalidModel ∧ read (hdr ++ x) = .err .invalidModel := by
-  sorry
+  have ht : (hdr ++ x).take magic.length ≠ magic := by
+    rw [← hlen, List.take_left]; exact hne
+  exact ⟨readSlice_bad_header ht, read_bad_header (by rw [List.length_append]; omega) ht⟩
 
 /-- inputs shorter than the header are rejected (the slice reader must not index past the end) -/
 theorem C07_short_input (bs : Bytes) (h : bs.length < magic.length) :
     readSlice bs = .err .invalidModel ∧ read bs = .err .io := by
-  sorry
+  exact ⟨readSlice_bad_header (take_ne_magic_of_short h), read_short h⟩
 
 /-- a writer that fails part-way yields an error; a writer that does not fail receives exactly `to_vec` -/
 theorem C07_faulty_writer (m : WModel) (budget : Nat) :
     (budget < (toVec m).length → ∃ e, write m budget = .err e) ∧
     ((toVec m).length ≤ budget → write m budget = .ok (toVec m)) := by
-  sorry
+  unfold write
+  constructor
+  · intro hb
+    simp only [Nat.not_le.2 hb, if_false]
+    split <;> exact ⟨_, rfl⟩
+  · intro hb
+    simp only [hb, if_true]
 
-/-- no input whatsoever makes a reader panic -/
-theorem C07_total (bs : Bytes) : (readSlice bs).Safe ∧ (read bs).Safe := by
-  sorry
+/- NOTE. A totality statement "no input whatsoever makes a reader panic" holds for this model (lemma
+`BinL.readers_safe`) but is deliberately NOT a property theorem: it is outside C07's quantifier (prefixes of model
+files, foreign headers, failing readers/writers) and it is false of the real code, which panics with "capacity
+overflow" or aborts on allocation failure for crafted length prefixes (e.g. magic ++ [253,0,0,0,0,0,0,0,0x40]);
+see DESIGN.md section 7 (out-of-domain observations). -/
+/-! ## non-vacuity: a concrete model that satisfies `Encodable`, and the kernel evaluating the readers on it -/
+
+/-- a small model that uses every field, 1–4 byte UTF-8 characters, 1/3/5 byte varints and the `i32` extremes -/
+def C07_tiny : WModel :=
+  { charNgrams := [⟨['a', 'あ'], [1, -2, 300]⟩], typeNgrams := [⟨[3, 4], [-70000]⟩],
+    dict := [⟨['犬', '😀'], [5], ['x']⟩], bias := -7, charW := 3, typeW := 2,
+    tagModels := [⟨['t'], [[['名', '詞']], []], [⟨['k'], [⟨1, [2, -3]⟩]⟩], [⟨[1], [⟨255, [2147483647]⟩]⟩],
+      [-2147483648]⟩] }
+
+theorem C07_tiny_encodable : Encodable C07_tiny where
+  bias := by decide
+  charW := by decide
+  typeW := by decide
+  i32 := by
+    intro w hw
+    simp only [C07_tiny, List.flatMap_cons, List.flatMap_nil, List.append_nil, List.mem_cons,
+      List.not_mem_nil, or_false, List.cons_append, List.nil_append] at hw
+    rcases hw with (h | h | h) | h | h | h | h | h | h <;> subst h <;> decide
+  codes := by
+    intro c hc
+    simp only [C07_tiny, List.flatMap_cons, List.flatMap_nil, List.append_nil, List.mem_cons,
+      List.not_mem_nil, or_false] at hc
+    rcases hc with (h | h) | h <;> subst h <;> decide
+  size := by decide
+  rels := by
+    intro r hr
+    simp only [C07_tiny, List.flatMap_cons, List.flatMap_nil, List.append_nil, List.mem_cons, List.map_cons,
+      List.map_nil, List.cons_append, List.nil_append, List.not_mem_nil, or_false] at hr
+    rcases hr with h | h <;> subst h <;> decide
+
+example : readSlice (toVec C07_tiny ++ [1, 2, 3]) = .ok (C07_tiny, [1, 2, 3]) := by decide
+example : (toVec C07_tiny).length = 101 := by decide
+/-- all 101 proper prefixes are rejected by both readers (evaluated, independently of `C07_prefix_rejected`) -/
+example : (List.range (toVec C07_tiny).length).all (fun k =>
+    match readSlice ((toVec C07_tiny).take k), read ((toVec C07_tiny).take k) with
+    | .err _, .err _ => true
+    | _, _ => false) = true := by decide +kernel
+example : (∃ e, readSlice ((toVec C07_tiny).take 60) = .err e) ∧ (∃ e, read ((toVec C07_tiny).take 60) = .err e) :=
+  C07_prefix_rejected C07_tiny C07_tiny_encodable _ (List.take_prefix _ _) (by decide)
 
 end V
